@@ -564,18 +564,64 @@ inline void installHook() { hyperedgeTreeVerifHook = &hookCallback; }
 inline void installHook() {}
 #endif
 
+// The closed witnesses of Props/C12Ops (side conditions of the terminal-set theorems), run against the real
+// code: exStar (junction on a terminal), exZeroTail (zero-length last segment at a source terminal),
+// exOverTerminal (a second connector running over a terminal's end point).
+inline void caseWitness(int which) {
+    World w;
+    HyperedgeTreeNode *root = w.newNode(0, 0);
+    root->junction = w.newJunction(0, 0, false);
+    ConnRef *c1 = w.newConn(false), *c2 = w.newConn(false), *c3 = w.newConn(false);
+    if (which == 0) {
+        HyperedgeTreeNode *t1 = w.newNode(0, 0), *t2 = w.newNode(10, 0), *t3 = w.newNode(0, 10);
+        w.newEdge(root, t1, c1); w.newEdge(root, t2, c2); w.newEdge(root, t3, c3);
+    } else if (which == 1) {
+        HyperedgeTreeNode *b = w.newNode(10, 0), *t = w.newNode(10, 0), *t3 = w.newNode(0, 10), *t4 = w.newNode(0, -10);
+        t->isConnectorSource = true;
+        w.newEdge(root, b, c1); w.newEdge(b, t, c1); w.newEdge(root, t3, c2); w.newEdge(root, t4, c3);
+    } else {
+        HyperedgeTreeNode *t1 = w.newNode(10, 0), *b = w.newNode(10, 0), *t3 = w.newNode(10, 10), *t4 = w.newNode(0, -10);
+        w.newEdge(root, t1, c1); w.newEdge(root, b, c2); w.newEdge(b, t3, c2); w.newEdge(root, t4, c3);
+    }
+    w.router->processTransaction();
+    registerImprover(w, root, false);
+    rediscover(w, root);
+    dump(w, 0, "dfs", root);
+    if (which < 2) {
+        printf("hop 1 rzle %ld -\n", w.idOf(root));
+        fflush(stdout);
+        (w.imp.*get(TRzle()))(root, nullptr);
+        rediscover(w, root);
+        dump(w, 1, "dfs", root);
+    } else {
+        bool changed = false;
+        printf("hop 1 move %ld\n", w.idOf(root->junction));
+        fflush(stdout);
+        JunctionRef *j = root->junction;
+        HyperedgeTreeNode *res = (w.imp.*get(TMove()))(root, changed);
+        if (res) (w.imp.*get(TJunctions()))[j] = res;
+        HyperedgeTreeNode *anchor = res ? res : root;
+        rediscover(w, anchor);
+        printf("hret 1 %s %d\n", opt(res ? w.idOf(res) : -1).c_str(), (int) changed);
+        dump(w, 1, "dfs", anchor);
+    }
+    freeAll(w);
+}
+
 inline const char *opsTag(int klass) {
     static const char *T[] = { "ops-prim", "ops-rzle-minor", "ops-rzle-major", "ops-move-minor", "ops-move-major",
-                               "ops-odd-minor", "ops-odd-major" };
-    return T[klass % 7];
+                               "ops-odd-minor", "ops-odd-major", "ops-witness" };
+    return T[klass % 8];
 }
 
 inline void runOpsCase(const vh::Args &a, long k) {
-    int klass = (int) (k % 7);
+    // the three fixed witnesses are cases 7, 15, 23; the random classes cycle otherwise
+    int klass = (k == 7 || k == 15 || k == 23) ? 7 : (int) (k % 7);
     vh::Rng r = vh::caseRng(a.seed, (uint64_t) k, 12);
     vh::beginCase(k, opsTag(klass));
     bool thorough = a.tier == "thorough";
     if (klass == 0) casePrimitives(r, thorough);
+    else if (klass == 7) caseWitness((int) (k / 8));
     else caseRewrites(r, thorough, klass - 1);
     vh::endCase();
 }
